@@ -285,7 +285,7 @@ type vfCaseC19E struct {
 	Alloc    bool
 	ReadOnly bool     // os server created with ReadOnly(): refusals are decided before the request is served (seed C19-b)
 	Names    []string // extended request names, each followed by a STAT probe
-	HOpts vfHOpts
+	HOpts    vfHOpts
 }
 
 func vfRunC19E(ctx *vfCtx, c vfCaseC19E) {
